@@ -162,7 +162,7 @@ def replay(case):
 
 def main(tier, seed, t0):
     quick = tier == "quick"
-    col = core.run_shards(worker, [(seed * 1000 + 1800 + k, 250 if quick else 5000) for k in range(16)])
+    col = core.run_shards(worker, [(seed * 1000 + 1800 + k, 1000 if quick else 10000) for k in range(16)])
     need = ["op:" + o for o in OPS] + ["version:True", "version:False", "arg:quote-or-backslash", "arg:cr-lf-nul",
                                         "arg:literal-lookalike", "arg:empty", "arg:non-ascii"]
     missing = [c for c in need if not col.classes.get(c)]
